@@ -13,6 +13,7 @@ CONSTANTS
  LyingSizes = TRUE
  InlineData = TRUE
  Conc = 64
+ Probes = FALSE
 INIT Init
 NEXT Next
 VIEW View
